@@ -1,9 +1,12 @@
 #!/bin/bash
-# Runs every registered quick check on the current tree and validates the evidence files.
+# Runs every registered check (quick tier by default) on the current tree and validates the evidence files.
+#   ./run_all.sh [quick|thorough] [ID ...]     (no IDs: all checks, in MANIFEST order)
 cd "$(dirname "$0")"
 tier=${1:-quick}
 mkdir -p build
-ids=$(python3 -c "
+shift
+ids="$*"
+[ -z "$ids" ] && ids=$(python3 -c "
 import json
 print(' '.join(c['property_id'] for c in json.load(open('MANIFEST.json'))['checks']))")
 rc=0
